@@ -1,5 +1,145 @@
-use crate::util::Args;
+//! LAWS: exhaustive enumeration of the finite shape space of `ActorResult` (2 Completed + 16 Failed
+//! shapes) against an independently written table of what every query method / conversion must
+//! return, and `Error::is_retryable` on one hand-built value of each of the seven variants.
+
+use crate::util::*;
+use rsactor::{Actor, ActorRef, ActorResult, FailurePhase};
+
+#[derive(Debug, Clone, PartialEq)]
+struct L(u32);
+impl Actor for L {
+    type Args = u32;
+    type Error = String;
+    async fn on_start(a: u32, _: &ActorRef<Self>) -> Result<Self, String> {
+        Ok(L(a))
+    }
+}
+
+struct Expect {
+    completed: bool,
+    killed: bool,
+    phase: Option<FailurePhase>,
+    has_actor: bool,
+}
+
+fn mk(e: &Expect, tag: u32) -> ActorResult<L> {
+    match e.phase {
+        None => ActorResult::Completed { actor: L(tag), killed: e.killed },
+        Some(p) => ActorResult::Failed {
+            actor: if e.has_actor { Some(L(tag)) } else { None },
+            error: format!("err{tag}"),
+            phase: p,
+            killed: e.killed,
+        },
+    }
+}
+
 pub fn cmd_laws(_a: &Args) -> i32 {
-    eprintln!("laws: not implemented yet");
-    2
+    crate::sa::install_panic_hook();
+    let mut viol: Vec<String> = vec![];
+    let mut shapes = vec![];
+    for killed in [false, true] {
+        shapes.push(Expect { completed: true, killed, phase: None, has_actor: true });
+    }
+    for phase in [FailurePhase::OnStart, FailurePhase::OnRun, FailurePhase::OnStop, FailurePhase::OnRunThenOnStop] {
+        for killed in [false, true] {
+            for has_actor in [false, true] {
+                shapes.push(Expect { completed: false, killed, phase: Some(phase), has_actor });
+            }
+        }
+    }
+    let mut n = 0u64;
+    let mut samples = vec![];
+    for (i, e) in shapes.iter().enumerate() {
+        let tag = 100 + i as u32;
+        let name = format!("shape#{i} completed={} killed={} phase={:?} has_actor={}", e.completed, e.killed, e.phase, e.has_actor);
+        let mut chk = |what: &str, got: bool, exp: bool| {
+            n += 1;
+            if got != exp {
+                viol.push(format!("{name}: {what} = {got}, expected {exp}"));
+            }
+        };
+        let r = mk(e, tag);
+        chk("is_completed()", r.is_completed(), e.completed);
+        chk("is_failed()", r.is_failed(), !e.completed);
+        chk("was_killed()", r.was_killed(), e.killed);
+        chk("stopped_normally()", r.stopped_normally(), e.completed && !e.killed);
+        chk("is_startup_failed()", r.is_startup_failed(), e.phase == Some(FailurePhase::OnStart));
+        chk("is_runtime_failed()", r.is_runtime_failed(), matches!(e.phase, Some(FailurePhase::OnRun) | Some(FailurePhase::OnRunThenOnStop)));
+        chk("is_cleanup_failed()", r.is_cleanup_failed(), e.phase == Some(FailurePhase::OnRunThenOnStop));
+        chk("is_stop_failed()", r.is_stop_failed(), e.phase == Some(FailurePhase::OnStop));
+        chk("has_actor()", r.has_actor(), e.has_actor);
+        chk("actor() == the instance", r.actor().cloned() == if e.has_actor { Some(L(tag)) } else { None }, true);
+        chk("error() == the error", r.error().cloned() == if e.completed { None } else { Some(format!("err{tag}")) }, true);
+        chk("into_actor()", mk(e, tag).into_actor() == if e.has_actor { Some(L(tag)) } else { None }, true);
+        chk("into_error()", mk(e, tag).into_error() == if e.completed { None } else { Some(format!("err{tag}")) }, true);
+        chk(
+            "to_result()",
+            mk(e, tag).to_result() == if e.completed { Ok(L(tag)) } else { Err(format!("err{tag}")) },
+            true,
+        );
+        let (oa, oe): (Option<L>, Option<String>) = mk(e, tag).into();
+        chk("into (Option<actor>, Option<error>)", oa == if e.has_actor { Some(L(tag)) } else { None } && oe == if e.completed { None } else { Some(format!("err{tag}")) }, true);
+        if i < 3 {
+            samples.push(json_str(&name));
+        }
+    }
+    // FailurePhase display
+    for (p, s) in [(FailurePhase::OnStart, "OnStart"), (FailurePhase::OnRun, "OnRun"), (FailurePhase::OnStop, "OnStop"), (FailurePhase::OnRunThenOnStop, "OnRunThenOnStop")] {
+        n += 1;
+        if p.to_string() != s {
+            viol.push(format!("FailurePhase::{s} displays as {}", p));
+        }
+    }
+    // Error::is_retryable: Timeout only
+    let id = rsactor::Identity::new(7, "X");
+    let rt = tokio::runtime::Builder::new_current_thread().build().unwrap();
+    let join_err = rt.block_on(async {
+        let h = tokio::spawn(async { panic!("scripted join error") });
+        h.await.unwrap_err()
+    });
+    let errs: Vec<(&str, rsactor::Error, bool)> = vec![
+        ("Send", rsactor::Error::Send { identity: id, details: "d".into() }, false),
+        ("Receive", rsactor::Error::Receive { identity: id, details: "d".into() }, false),
+        ("Timeout", rsactor::Error::Timeout { identity: id, timeout: std::time::Duration::from_millis(5), operation: "ask".into() }, true),
+        ("Downcast", rsactor::Error::Downcast { identity: id, expected_type: "u8".into() }, false),
+        ("Runtime", rsactor::Error::Runtime { identity: id, details: "d".into() }, false),
+        ("MailboxCapacity", rsactor::Error::MailboxCapacity { message: "m".into() }, false),
+        ("Join", rsactor::Error::Join { identity: id, source: join_err }, false),
+    ];
+    let mut nret = 0u64;
+    for (name, e, exp) in &errs {
+        nret += 1;
+        if e.is_retryable() != *exp {
+            viol.push(format!("Error::{name}.is_retryable() = {}, expected {exp}", e.is_retryable()));
+        }
+        let _ = e.to_string();
+    }
+    let vj: Vec<String> = viol
+        .iter()
+        .map(|m| {
+            let clause = if m.starts_with("Error::") { "C10.retryable" } else { "C05.accessors" };
+            JObj::new().s("prop", &clause[..3]).s("clause", clause).s("msg", m).s("profile", "laws").n("seed", 0).n("pert", 0).b("erased", false).build()
+        })
+        .collect();
+    let hashes: Vec<String> = (0..shapes.len() as u64 + errs.len() as u64).map(|h| h.to_string()).collect();
+    println!(
+        "{}",
+        JObj::new()
+            .s("engine", "laws")
+            .s("features", &crate::features_label())
+            .n("scenarios", shapes.len() as u64 + errs.len() as u64)
+            .n("events", n)
+            .raw("obl", &format!("{{\"C05.accessors\":{},\"C10.retryable\":{}}}", n, nret))
+            .raw("nontrivial", &format!("{{\"C05\":{},\"C10\":{}}}", shapes.len(), errs.len()))
+            .raw("hashes", &jarr(&hashes))
+            .raw("viol", &jarr(&vj))
+            .raw("samples", &jarr(&[JObj::new().s("engine", "laws").raw("shapes", &jarr(&samples)).b("exhaustive_over_shapes", true).build()]))
+            .build()
+    );
+    if viol.is_empty() {
+        0
+    } else {
+        1
+    }
 }
